@@ -106,6 +106,8 @@ type director struct {
 	incC  []int                 // calls of the current incarnation
 	next  int                   // next free call number for implicit calls
 	wd    bool                  // a watchdog expired
+	proc  bool                  // Connect returned a future: a processor runs
+	stuck bool                  // an idle wait expired: the processor neither receives nor ended
 	autos sync.WaitGroup
 }
 
@@ -139,6 +141,8 @@ func (d *director) newClient(cfg cfgT) {
 	}
 	d.incF = nil
 	d.incC = nil
+	d.proc = false
+	d.stuck = false
 	d.rec.log("new 0")
 }
 
@@ -276,6 +280,11 @@ func (d *director) call(s step) {
 			close(logged)
 			err = cl.Close()
 		}
+		if s.kind == "connect" && err == nil {
+			d.mu.Lock()
+			d.proc = true
+			d.mu.Unlock()
+		}
 		d.rec.log("ret %d %s", s.c, retText(err, f != nil))
 		if f != nil {
 			d.watch(s.c, f)
@@ -315,6 +324,23 @@ func (d *director) waitFut(c int) bool {
 		return true
 	case <-time.After(watchdog):
 		return false
+	}
+}
+
+// idle waits until the processor is back in Receive with nothing to read, or the connection
+// is over for the client.  The bound only limits how long a processor that left without
+// closing anything is waited for; it orders nothing.
+func (d *director) idle() {
+	d.mu.Lock()
+	skip := !d.proc || d.stuck
+	d.mu.Unlock()
+	if skip {
+		return
+	}
+	if !d.conn.waitIdle(250 * time.Millisecond) {
+		d.mu.Lock()
+		d.stuck = true
+		d.mu.Unlock()
 	}
 }
 
@@ -367,9 +393,9 @@ func (d *director) endIncarnation(last bool) {
 	for _, c := range calls {
 		d.waitRet(c)
 	}
-	d.conn.waitIdle(watchdog)
+	d.idle()
 	d.conn.mu.Lock()
-	ended := d.conn.closed || d.conn.rxDone
+	ended := d.conn.closed || d.conn.rxDone || d.conn.peerClosed
 	d.conn.mu.Unlock()
 	if ended {
 		// the connection is over for the client: every future must resolve without further help
@@ -426,7 +452,7 @@ func runScenario(sc *scenario) (lines []string, direct []string, quiescent bool)
 		case "bsend":
 			d.conn.brokerSend(s.pkt)
 		case "idle":
-			d.conn.waitIdle(watchdog)
+			d.idle()
 		case "bauto":
 			d.auto(s.n)
 		case "bdrop":
